@@ -12,7 +12,7 @@ import subprocess
 import threading
 from multiprocessing import Pool
 
-NAMES = ["a", "d/b", ".copiarc", "with space/q'uote"]
+NAMES = ["a", "d/b", ".copiarc", "with space/q'uote", "d\\b"]          # the last one is ONE component containing a backslash
 CONTENT = {1: b"one-" * 50 + b"\n", 2: b"two!" * 700 + b"\n" + b"\0" * 140_000, 3: b"", 4: b"four" * 20000}
 BY_BYTES = {v: k for k, v in CONTENT.items()}
 CFG = {}
